@@ -108,24 +108,38 @@ end
 
 def normT (σ : Store) (t : Term) : Term := normTerm σ (σ.vars.length + 64) t
 
-/-- `Expr.fix()` (expr.py:240-258): sources get their most general type, applications their most
-specific one; every node's type is normalised afterwards -/
-def fixExpr (L : Lang) : Store → TExpr → Except Err (Store × TExpr)
+/-- the fixing pass of `Expr.fix()` (expr.py:240-258): sources get their most general type, applications their most
+specific one -/
+def fixExprCore (L : Lang) : Store → TExpr → Except Err (Store × TExpr)
   | σ, .src i l t =>
     match fix L exprFuel σ t false with
     | .error e => .error e
-    | .ok (σ1, t1) => .ok (σ1, .src i l (normT σ1 t1))
-  | σ, .op n t => .ok (σ, .op n (normT σ t))
+    | .ok (σ1, t1) => .ok (σ1, .src i l t1)
+  | σ, .op n t => .ok (σ, .op n t)
   | σ, .app f x t =>
-    match fixExpr L σ f with
+    match fixExprCore L σ f with
     | .error e => .error e
     | .ok (σ1, f1) =>
-      match fixExpr L σ1 x with
+      match fixExprCore L σ1 x with
       | .error e => .error e
       | .ok (σ2, x1) =>
         match fix L exprFuel σ2 t true with
         | .error e => .error e
-        | .ok (σ3, t1) => .ok (σ3, .app f1 x1 (normT σ3 t1))
+        | .ok (σ3, t1) => .ok (σ3, .app f1 x1 t1)
+
+/-- every node's type followed to its bindings in the given store -/
+def normExpr (σ : Store) : TExpr → TExpr
+  | .src i l t => .src i l (normT σ t)
+  | .op n t => .op n (normT σ t)
+  | .app f x t => .app (normExpr σ f) (normExpr σ x) (normT σ t)
+
+/-- `Expr.fix()`. Python normalises each node's type as it goes, but the normalised type still *shares* its
+unresolved variables with the rest of the tree, so a variable that a later `fix` step resolves is seen resolved
+wherever the type is read afterwards; the model therefore normalises all node types against the final store. -/
+def fixExpr (L : Lang) (σ : Store) (e : TExpr) : Except Err (Store × TExpr) :=
+  match fixExprCore L σ e with
+  | .error err => .error err
+  | .ok (σ1, e1) => .ok (σ1, normExpr σ1 e1)
 
 /-- input expressions `Source()` supplied to the parser: fresh wildcard-typed sources with ids `0 … n-1` -/
 def mkInputs : Nat → XState → XState × List TExpr
